@@ -401,6 +401,46 @@ class SimOS:
     def cpu_count(self):
         return 8
 
+    def stat(self, path):
+        size = self._fs.getsize(path)
+        now = self._fs.kernel.now if self._fs.kernel else 0.0
+        import stat as _stat
+        mode = (_stat.S_IFDIR | 0o755) if self._fs.norm(path) in self._fs.dirs else (_stat.S_IFREG | 0o644)
+        return __import__('os').stat_result((mode, 0, 0, 1, 0, 0, size, int(now), int(now), int(now)))
+
+    def scandir(self, path='.'):
+        fs = self._fs
+        names = fs.listdir(path)
+
+        class _Entry:
+            def __init__(self, name):
+                self.name = name
+                self.path = posixpath.join(str(path), name)
+
+            def is_dir(self, follow_symlinks=True):
+                return fs.norm(self.path) in fs.dirs
+
+            def is_file(self, follow_symlinks=True):
+                return fs.norm(self.path) in fs.files
+
+            def stat(self, follow_symlinks=True):
+                return SimOS.stat(outer, self.path)
+
+            def __fspath__(self):
+                return self.path
+        outer = self
+
+        class _Iter(list):
+            def __enter__(self_):
+                return self_
+
+            def __exit__(self_, *exc):
+                return False
+
+            def close(self_):
+                pass
+        return _Iter(_Entry(n) for n in names)
+
     def walk(self, top):
         names = self._fs.listdir(top)
         dirs = [n for n in names if self._fs.norm(posixpath.join(top, n)) in self._fs.dirs]
@@ -540,3 +580,28 @@ class SimGlob:
             strip = base.rstrip('/') + '/'
             out = [o[len(strip):] if o.startswith(strip) else o for o in out]
         return out
+
+
+class SimShutil:
+    """Stand-in for `shutil` (only if the module under test has such a global): the operations a bookkeeping fix might use."""
+
+    def __init__(self, fs):
+        self._fs = fs
+
+    def rmtree(self, path, ignore_errors=False, onerror=None):
+        self._fs.rmtree(path)
+
+    def move(self, src, dst):
+        self._fs.rename(src, dst)
+        return dst
+
+    def copyfile(self, src, dst, **kw):
+        data = self._fs.read_bytes(src)
+        with self._fs.open(dst, 'wb') as f:
+            f.write(data)
+        return dst
+
+    copy = copy2 = copyfile
+
+    def __getattr__(self, name):
+        raise HarnessError('shutil.%s is not simulated' % name)
